@@ -225,6 +225,10 @@ def check_label(case, res: Res, md) -> None:
     if not lab.strip() or "]" in lab.replace("\\]", "") or "[" in lab.replace("\\[", "") or "\n\n" in var or re.search(r"\n[ \t]*\n", var):
         res.cls.append("label:outside-domain")
         return
+    if any(not ln.lstrip(" \t")[:1].isalpha() for ln in var.split("\n")[1:]):
+        # a continuation line of the label must not be able to start a block (list marker, quote, heading ...)
+        res.cls.append("label:outside-domain")
+        return
     collapse = lambda s: re.sub(r"[ \t\n]+", " ", s.strip(" \t\n"))  # noqa: E731
     if collapse(lab).casefold() != collapse(var).casefold():
         res.cls.append("label:variant-folds-differently")
